@@ -256,6 +256,7 @@ Proof. unfold create_table. destruct (negb _); [discriminate|]. intros H. apply 
 Lemma sz_build_table st adds r es st' : build_table st adds = Some (r, es, st') -> sz st <= sz st'.
 Proof.
   unfold build_table. destruct (has_dup _); [discriminate|]. destruct (place adds 0) as [pl s].
+  destruct (_ <? _); [discriminate|].
   destruct (create_cached_vtable st _) as [[[v es1] st1]|] eqn:E1; [|discriminate].
   destruct (create_table st1 _ _ _ _) as [[[r0 e0] st2]|] eqn:E2; [|discriminate]. intros H. injection H as _ _ <-.
   apply sz_cached_vtable in E1. apply sz_create_table in E2. lia.
